@@ -88,6 +88,7 @@ type PlainProbe struct {
 	wakes            int
 	curIns           []InSpec
 	rt               controller.Runtime
+	active           int
 	ResetBackoffOnOK bool
 }
 
@@ -135,6 +136,14 @@ func (p *PlainProbe) SetInputs(ins []InSpec) {
 	defer p.mu.Unlock()
 
 	p.curIns = append([]InSpec{}, ins...)
+}
+
+// Active reports whether Run is currently executing.
+func (p *PlainProbe) Active() bool {
+	p.mu.Lock()
+	defer p.mu.Unlock()
+
+	return p.active > 0
 }
 
 // CurrentInputs returns the inputs currently declared (initial + late once applied).
@@ -201,7 +210,14 @@ func (p *PlainProbe) Run(ctx context.Context, r controller.Runtime, _ *zap.Logge
 	p.mu.Lock()
 	p.Starts = append(p.Starts, p.W.Now())
 	p.rt = r
+	p.active++
 	p.mu.Unlock()
+
+	defer func() {
+		p.mu.Lock()
+		p.active--
+		p.mu.Unlock()
+	}()
 
 	for {
 		select {
@@ -370,6 +386,14 @@ func (q *QProbe) Settings() controller.QSettings {
 	}
 
 	return s
+}
+
+// ShutdownCount returns how many times the shutdown hook ran.
+func (q *QProbe) ShutdownCount() int {
+	q.mu.Lock()
+	defer q.mu.Unlock()
+
+	return q.Shutdowns
 }
 
 // Snapshot copies the observations.
